@@ -136,3 +136,46 @@ Proof.
     + intros [(pr' & E & H1) H2]. inversion E; subst. auto.
   - split; [discriminate|]. intros [(pr' & E & _) _]. discriminate.
 Qed.
+
+(* ---- shapes: trees up to the spans of interior nodes ---------------------- *)
+
+Fixpoint shape (t : tree) : tree :=
+  match t with
+  | TLeaf y s e => TLeaf y s e
+  | TNode p _ _ cs => TNode p 0 0 (map shape cs)
+  end.
+
+Fixpoint tree_eqb (a b : tree) {struct a} : bool :=
+  match a, b with
+  | TLeaf y s e, TLeaf y' s' e' => (y =? y') && (s =? s') && (e =? e')
+  | TNode p s e cs, TNode p' s' e' cs' =>
+      (p =? p') && (s =? s') && (e =? e') &&
+      (fix go (l l' : list tree) {struct l} : bool :=
+         match l, l' with
+         | [], [] => true
+         | x :: r, x' :: r' => tree_eqb x x' && go r r'
+         | _, _ => false
+         end) cs cs'
+  | _, _ => false
+  end.
+
+Lemma tree_eqb_eq a : forall b, tree_eqb a b = true <-> a = b.
+Proof.
+  induction a as [y s e|p s e cs IH] using tree_ind2; intros [y' s' e'|p' s' e' cs']; cbn [tree_eqb];
+    try (split; [discriminate|congruence]).
+  - rewrite !andb_true_iff, !N.eqb_eq. split; [intros [[-> ->] ->]; reflexivity|].
+    intros E; inversion E; auto.
+  - rewrite !andb_true_iff, !N.eqb_eq.
+    assert (Hgo : forall l',
+      (fix go (l l' : list tree) {struct l} : bool :=
+         match l, l' with
+         | [], [] => true
+         | x :: r, x' :: r' => tree_eqb x x' && go r r'
+         | _, _ => false
+         end) cs l' = true <-> cs = l').
+    { induction cs as [|c r IHr]; intros [|c' r']; try (split; [discriminate|congruence]); [tauto|].
+      destruct IH as [Hc Hr]. rewrite andb_true_iff, (Hc c'), (IHr Hr r').
+      split; [intros [-> ->]; reflexivity|intros E; inversion E; auto]. }
+    rewrite Hgo. split; [intros [[[-> ->] ->] ->]; reflexivity|].
+    intros E; inversion E; auto.
+Qed.
